@@ -80,7 +80,7 @@ pub fn run(cfg: &Cfg) -> i32 {
             let Ok(v) = serde_json::from_str::<Value>(l) else { continue };
             let key = format!("{} threads={}", v["case"].as_str().unwrap_or("?"), v["threads"]);
             let case_only = v["case"].as_str().unwrap_or("?").to_string();
-            if v["nontrivial"].as_bool() == Some(true) || case_only.starts_with("n3/") || case_only.starts_with("n3-addvars/") || case_only.starts_with("n3-sets/") {
+            if v["nontrivial"].as_bool() == Some(true) || case_only.starts_with("n3/") || case_only.starts_with("n3-addvars/") || case_only.starts_with("n3-sets/") || case_only.starts_with("big/") {
                 nontrivial_cases.insert(case_only.clone());
             }
             table.entry(case_only).or_default().insert(format!("{name} threads={}", v["threads"]), (v["digest"].as_u64(), v["err"].as_str().map(|s| s.to_string()), v["history"].clone()));
@@ -92,7 +92,7 @@ pub fn run(cfg: &Cfg) -> i32 {
         // every run must agree with the model (no err) ...
         for (c, (_, err, hist)) in per_cfg {
             if let Some(e) = err {
-                if e.starts_with("timeout") {
+                if e.starts_with("timeout") || e.starts_with("crash: Timeout") {
                     rep.inconclusive.push(format!("{case} [{c}]: {e}"));
                 } else {
                     rep.viol(format!("C20/{}/{}", c.split(' ').next().unwrap_or("?"), crate::hrun::category(e)), format!("{case} under configuration [{c}]: {e}"), json!({"case": case, "configuration": c, "history": hist}));
@@ -117,7 +117,7 @@ pub fn run(cfg: &Cfg) -> i32 {
         &rep,
         Meta {
             level: "exploration",
-            rule: "the recorder binary vrun20 is built for every point of {manager-index, manager-pointer} x {apply-cache-direct-mapped on, off} x {multi-threading on, off} (quick: 5 of the 8 points incl. both backends, both cache settings and one single-threaded build; thorough: all 8). Each binary executes, with worker counts 1, 2 and 8, the exhaustive 3-variable suite (256 functions, node counts vs reference canonical form, sampled operator results as handles, structure + reference-count audit, gc) under all 6 orders for BDD/BCDD/ZBDD and the same seeded proptest histories (apply, quantify, substitute, clone/drop, gc, add_vars, set_var_order, ...) with model comparison, pairwise canonicity, structure and reference-count audits after every step, in forked children. Every run must agree with the truth-table model and all runs of a case must produce byte-identical digests (result tables, node counts, variable orders per step). Non-trivial = case executed by all configurations x 3 thread counts that is an n=3 suite or a history whose results reach >= 3 nodes after a gc or reorder. The ZBDD set-family suite of C09 (n3-sets: subset0/subset1/change/union/intsec/diff/make_node on all 256 families under the 6 orders) runs in every configuration and worker count. The add_vars suite (n3-addvars) repeats not, restrict by 27 persistent literal cubes, xor and imp on the SAME 256 handles with 3, 4 and 6 variables (add_vars(1), add_vars(2) in between) against the model (ZBDD handles are re-read as f AND NOT x_new), so that results depending on the set of levels cannot be served from state of the smaller manager in any configuration.",
+            rule: "the recorder binary vrun20 is built for every point of {manager-index, manager-pointer} x {apply-cache-direct-mapped on, off} x {multi-threading on, off} (quick: 5 of the 8 points incl. both backends, both cache settings and one single-threaded build; thorough: all 8). Each binary executes, with worker counts 1, 2 and 8, the exhaustive 3-variable suite (256 functions, node counts vs reference canonical form, sampled operator results as handles, structure + reference-count audit, gc) under all 6 orders for BDD/BCDD/ZBDD and the same seeded proptest histories (apply, quantify, substitute, clone/drop, gc, add_vars, set_var_order, ...) with model comparison, pairwise canonicity, structure and reference-count audits after every step, in forked children. Every run must agree with the truth-table model and all runs of a case must produce byte-identical digests (result tables, node counts, variable orders per step). Non-trivial = case executed by all configurations x 3 thread counts that is an n=3 suite or a history whose results reach >= 3 nodes after a gc or reorder. The ZBDD set-family suite of C09 (n3-sets: subset0/subset1/change/union/intsec/diff/make_node on all 256 families under the 6 orders) runs in every configuration and worker count. The add_vars suite (n3-addvars) repeats not, restrict by 27 persistent literal cubes, xor and imp on the SAME 256 handles with 3, 4 and 6 variables (add_vars(1), add_vars(2) in between) against the model (ZBDD handles are re-read as f AND NOT x_new), so that results depending on the set of levels cannot be served from state of the smaller manager in any configuration. The big-diagram case (big/<kind>: OR_i x_i AND x_{i+16} over 32 variables, > 100 000 nodes, its complement and f XOR x31) compares node_count() with an explicit walk over the diagram before and after a collection, so that node stores are exercised beyond their first page / chunk in every configuration.",
             assumptions: vec!["MTBDD exists only on the index backend and is not part of the cross product".into(), "builds share one cargo target directory and are produced sequentially; binaries are copied to target/c20".into()],
             extra: json!({}),
         },
